@@ -839,7 +839,8 @@ fn go_session(ctx: &Ctx, idx: usize, seeds: &[String], prop: &str) {
     let mut g = random_game(&mut rng, seeds, 30, true);
     if idx % 6 == 5 {
         // tense full-board positions (long capture chains), at most two moves in
-        let tense = corpus::tense_seeds();
+        let mut tense = corpus::tense_seeds();
+        tense.extend(corpus::queen_rich_seeds());
         let fen = rng.pick(&tense).clone();
         let start = Game {
             start_fen: fen.clone(),
@@ -901,7 +902,10 @@ fn go_session(ctx: &Ctx, idx: usize, seeds: &[String], prop: &str) {
             l
         } else if tiny_tree {
             let mut l = Limits::default();
-            match rng.below(5) {
+            // only trees that really run out (bare kings) get a bare depth limit
+            let has_pawn = p.sq.iter().filter(|&&x| x != 0).count() > 2;
+            let pickn = if has_pawn { [0u64, 2, 2, 0, 4][rng.below(5) as usize] } else { rng.below(5) };
+            match pickn {
                 0 => l.nodes = Some(*rng.pick(&[200_000, 1_000_000, 3_000_000])),
                 1 => l.depth = Some(*rng.pick(&[30, 100, 250])),
                 2 => l.movetime = Some(*rng.pick(&[50, 300])),
@@ -1037,6 +1041,7 @@ fn c09_verdict(ctx: &Ctx, idx: usize, e: &mut Engine, o: &GoOutcome, l: &Limits,
             replay_json("C09", idx, e),
         );
     } else if o.watchdog_stop && o.bestmove.is_some() {
+        out::note(format!("watchdog fired on a count-limited search: {ctxt}"));
         out::inconclusive("C09 depth/node-limited search still running when the watchdog fired (answered after stop; the limits do not bound its time)", 1);
     }
     match &o.bestmove {
@@ -1505,6 +1510,23 @@ fn fuzz_line(rng: &mut Rng, seeds: &[String]) -> (String, bool) {
             t.join(" ")
         }
         _ => toks.join(" "),
+    };
+    // FEN arguments are assumed valid by the property: whatever the mutations above produced, a line
+    // that the engine will read as `position fen <six fields>` must carry a valid FEN there, else
+    // the keyword is defused (the line stays hostile in every other respect)
+    let line = {
+        let t: Vec<&str> = line.split_whitespace().collect();
+        if t.len() >= 8 && t[0] == "position" && t[1] == "fen" {
+            let fen = t[2..8].join(" ");
+            let valid = Pos::from_fen(&fen).map(|p| p.is_sane() && p.fen() == fen).unwrap_or(false);
+            if valid {
+                line
+            } else {
+                line.replacen("fen", "fenn", 1)
+            }
+        } else {
+            line
+        }
     };
     let first = line.split_whitespace().next().unwrap_or("").to_string();
     if first == "quit" {
